@@ -809,12 +809,16 @@ pub fn mk_ref_c8<const K: usize>() -> (OwnedTerm, RV) {
     (t, RV::Ref(n.to_vec(), creation, ids.to_vec()))
 }
 
-/// 8-digit big integer whose magnitude has its low 11 bits clear: at most 53 significant bits, so
+/// 8-digit big integer with at most 16 significant bits (low six digits zero), so
 /// every partial sum of the library's `bigint_to_f64` is exact.  In this region the recorded
 /// finding "BigInt vs Float goes through a lossy conversion" cannot manifest, so all laws must hold.
 pub fn mk_big8_exact() -> (OwnedTerm, RV) {
-    let d: [u8; 8] = bytes::<8>();
-    vk::assume(d[7] != 0 && d[0] == 0 && (d[1] & 7) == 0);
+    // only the two most significant digits are non-zero: magnitude = (d6 + 256*d7) * 2^48 (16 significant bits),
+    // which also keeps the library's eight chained f64 multiply-adds cheap for the solver
+    let mut d = [0u8; 8];
+    d[6] = vk::u8();
+    d[7] = vk::u8();
+    vk::assume(d[7] != 0);
     let neg = vk::bool();
     let mut mag: i128 = 0;
     let mut i = 8;
